@@ -48,6 +48,8 @@ def main():
     ap.add_argument('--out', default='regress.json')
     a = ap.parse_args()
     ids = sorted(os.listdir(os.path.join(VERIF, 'seeded')))
+    # changes whose premise was removed by a later repair of /repo are kept for the record but not re-evaluated
+    ids = [i for i in ids if not json.load(open(os.path.join(VERIF, 'seeded', i, 'meta.json'))).get('superseded')]
     if a.only:
         want = a.only.split(',')
         ids = [i for i in ids if i in want or i.split('-')[0] in want]
